@@ -48,6 +48,8 @@ THEOREMS = [
     'Nb.C16.finally_restores_iff',
     'Nb.C16.gen_refines_finally_semantics',
     'Nb.C16.position_restored_src',
+    'Nb.C16.tck_file_roundtrip_parsed',
+    'Nb.C16.tck_header_text_counterexample',
 ]
 ASSUMPTIONS = [
     'hand-written Lean model of tck.py/trk.py/orientations.py (Model/C16.lean), tied to the code by the '
@@ -64,6 +66,19 @@ ASSUMPTIONS = [
     '(GeneratorExit at the suspended yield on close / garbage collection) is the Gen state machine of the model',
     'TCK offset arithmetic, buffer rounding, delimiters, TRK header size and name-field limits are regenerated from '
     'the source into Generated/C16.lean on every run and tied to the model by generated `rfl`/`decide` obligations',
+    'phase 3: the placement of `f.seek(start_position, os.SEEK_xxx)` relative to the yields of TckFile._read / TrkFile._read '
+    '(only statement of the finally clause of a try enclosing every yield, directly after `start_position = f.tell()`) is '
+    'read off the source AST into Gen.tckReadSeek / Gen.trkReadSeek; the CPython generator rules themselves (close() raises '
+    'GeneratorExit at the suspended yield, finally runs on every exit) are the FGen semantics of Model/C16_Ext — trusted, '
+    'exercised by the tckr/trkr consumer histories',
+    'phase 3: TRK header at byte level: the integer fields the reader branches on (hdr_size, version, n_count, n_scalars, '
+    'n_properties) and the two name tables are decoded in either byte order at offsets regenerated from header_2_dtype; the '
+    'other fields are opaque byte blocks (their float decoding is NumPy\'s; the `vox_to_ras` validity check is not modelled); '
+    'the host is little-endian; negative counts and trailing partial words are outside the modelled domain (driver: bad-op)',
+    'phase 3: (Lazy)Tractogram affine bookkeeping (apply_affine / to_world, both classes) over exact rationals with '
+    'np.linalg.inv = exact inverse; the lzaff stream keeps to signed-permutation x power-of-two affines, for which NumPy is exact',
+    'phase 3: the TCK line-oriented header parser is modelled on ASCII bytes (str.strip/split white space incl. \\x1c-\\x1f, '
+    'int() of plain digit strings only; the datatype checks and UTF-8 decoding are not modelled)',
 ]
 RULE = ('streams: off (every header length 51..1200 + windows around each digit boundary of the offset up to 10^6); '
         'buf (requests 0..40 + random, via argument and via rebinding tck.MEGABYTE); tckw / tckf (whole file bytes) (0..n streamlines of 1..m '
@@ -73,7 +88,16 @@ RULE = ('streams: off (every header length 51..1200 + windows around each digit 
         'voxel sizes x dims x signed-permutation affines with dyadic translation); trk (tractograms with named '
         'scalars/properties of 1..3 columns through the whole save/load with the 48x48 orientation pairs, embedded '
         'after junk bytes); trkr (record streams incl. count mismatches and cuts x consumer histories); general '
-        '(oracle only: arbitrary float coordinates/affines). A case is non-trivial when it has at least one '
+        '(oracle only: arbitrary float coordinates/affines); phase 3: tckr sub-stream with data far larger than the '
+        'buffer (5..16 short streamlines, buffers of 2..9 points: later buffers start mid-streamline and hold >= 2 '
+        'delimiters); tckw/trk with a tractogram whose affine_to_rasmm is NOT the identity (stored points = inv(R)·RAS); '
+        'trk re-saved from the lazily loaded tractogram under a DIFFERENT random TRK header; trkb (whole TRK files in both '
+        'byte orders x versions 1/2/3/other x bad or cross-order hdr_size x count mismatches x cuts, as raw bytes); hdrp '
+        '(TCK header texts with early END, earlier/repeated file entries, continuation lines, odd white space, missing END, '
+        'wrong magic, as raw bytes); lzaff (histories of 0..3 apply_affine/to_world on eager and lazy tractograms with '
+        'affine_to_rasmm = random / unknown, then re-saved as TRK under a random header and as TCK); bigtck (oracle only: '
+        'TCK files of 1..2.5 x the 4 MB buffer through the public API by path and file object, delimiter at/next to the '
+        'buffer boundary). A case is non-trivial when it has at least one '
         'streamline / a non-default header; distinct by its full description.')
 
 warnings.simplefilter('ignore')
